@@ -50,6 +50,7 @@ fn real_main(args: &[String]) -> i32 {
         "r-one" => return driver_r::one_main(&args[1..]),
         "r-shrink" => return driver_r::shrink_main(&args[1], &args[2]),
         "r-canon" => return driver_r::canon_main(),
+        "r-chain" => return if engine_r::run_long_chain_probe(args[1].parse().unwrap()) { 0 } else { 4 },
         "r-deep" => return if engine_r::run_deep_stack_probe(args[1].parse().unwrap(), args[2].parse().unwrap()) { 0 } else { 4 },
         "build-step" => return buildstep::main(&args[1], &args[2]),
         "replay-inner" => return driver_r::replay_inner_main(&args[1], args.iter().any(|a| a == "--quiet")),
@@ -89,6 +90,17 @@ fn real_main(args: &[String]) -> i32 {
             };
             match v["engine"].as_str() {
                 Some("R") => driver_r::replay_main(p, quiet),
+                Some("R-chain") => {
+                    let exe = std::env::current_exe().unwrap();
+                    let st = driver_r::run_guarded(&exe, &["r-chain", &v["stack_mb"].to_string()], 120.0);
+                    if st == Some(0) {
+                        println!("replay: the long-chain probe returned normally (not reproduced)");
+                        EXIT_OK
+                    } else {
+                        println!("VIOLATION property=C07 replay={p} class=C07-a-abort-after-long-repair-chain (child status {st:?})");
+                        EXIT_VIOLATION
+                    }
+                }
                 Some("R-deep") => {
                     let exe = std::env::current_exe().unwrap();
                     let st = driver_r::run_guarded(&exe, &["r-deep", &v["n"].to_string(), &v["stack_mb"].to_string()], 120.0);
